@@ -64,6 +64,7 @@ type monitor struct {
 	maxBuf, maxDirty                                          amax
 	readCalls, zeroReads                                      atomic.Int64
 	failedSteps, failedMid, failNil                           atomic.Int64
+	unknownSize                                               atomic.Int64
 	cancelledSteps, cancelledMid, cancelCompleted, cancelNil  atomic.Int64
 	obsFailedObserved, obsDirtyAfterFail, katCompared         atomic.Int64
 	fileFailMid                                               atomic.Int64
@@ -251,7 +252,7 @@ func (m *monitor) fillStep(st *step, a *algo, rng interface {
 		}
 	case "fail":
 		st.API = []string{"Calculate", "CalculateWithContext"}[rng.IntN(2)]
-		st.FailErr = []string{"custom", "custom", "unexpectedEOF"}[rng.IntN(3)]
+		st.FailErr = []string{"custom", "custom", "unexpectedEOF", "wrappedEOF"}[rng.IntN(4)]
 		st.FailWithData = rng.IntN(2) == 0
 	default:
 		st.API = "CalculateWithContext"
@@ -483,6 +484,8 @@ func main() {
 			r.Sample(fcs[i])
 		}
 	})
+	m.runUnknownSizeFiles()
+	r.Obs("digests_of_files_whose_reported_size_is_zero_judged", m.unknownSize.Load())
 	fmt.Printf("info: part F done at %.1fs\n", time.Since(t0).Seconds())
 	r.Obs("cases_F_files", int64(len(fcs)))
 	_ = os.RemoveAll(m.scratch)
@@ -541,7 +544,7 @@ func (m *monitor) report() {
 	r.Obs("steps_failed_after_delivering_bytes", m.failedMid.Load())
 	r.Obs("steps_cancelled_as_scripted", m.cancelledSteps.Load())
 	r.Obs("steps_cancelled_after_delivering_bytes", m.cancelledMid.Load())
-	r.Obs("dontcare_fail_step_returned_nil_error", m.failNil.Load())
+	r.Obs("fail_steps_that_returned_a_nil_error(judged:digest_must_be_the_reference)", m.failNil.Load())
 	r.Obs("dontcare_cancel_step_returned_nil_error_before_eof", m.cancelNil.Load())
 	r.Obs("cancel_steps_completed_and_judged", m.cancelCompleted.Load())
 	r.Obs("reader_read_calls", m.readCalls.Load())
